@@ -189,9 +189,10 @@ def prop(case):
         if case['latch']:       # a latch next to the scan flip-flops: it has a row in s_nodes but belongs to no chain
             Node(c, 'lat0', 'LATCH')
         s_len = len(c.s_nodes)
-        pi_rows = [b.s_pos(n) for n in b.pi]
-        po_rows = [b.s_pos(n) for n in b.po]
-        st_rows = [b.s_pos(n) for n in b.st]
+        where = {id(n): i for i, n in enumerate(b.s_order())}         # one pass (s_pos is linear per call)
+        pi_rows = [where[id(n)] for n in b.pi]
+        po_rows = [where[id(n)] for n in b.po]
+        st_rows = [where[id(n)] for n in b.st]
         # ---- expected --------------------------------------------------------------------------------
         exp_t = np.full((s_len, npat), 2)
         exp_r = np.full((s_len, npat), 2)
@@ -202,11 +203,14 @@ def prop(case):
             loaded = {}
             for j, ch in enumerate(chains):
                 n = len(ch['cells'])
+                pref = [0]
+                for mk in ch['marks']:
+                    pref.append(pref[-1] + mk)                 # pref[j] = number of markers before position j of the marks list
                 for pos in range(n):               # position counted from scan-out
                     k = n - 1 - pos                # index in scan-in -> scan-out order
                     cell = ch['cells'][k]
-                    inv_in = sum(ch['marks'][:k + 1]) % 2
-                    inv_out = sum(ch['marks'][k + 1:]) % 2
+                    inv_in = pref[k + 1] % 2                    # markers between scan-in and the cell
+                    inv_out = (pref[-1] - pref[k + 1]) % 2      # markers between the cell and scan-out
                     v = CHARCODE[pat['loads'][j][pos]]
                     if v in (0, 3) and inv_in: v = 3 - v
                     loaded[cell] = v
@@ -320,5 +324,31 @@ def enum_many(tier):
                    pi_order=[2, 0, 1], po_order=[0], brk=npat * 3 + 1)
 
 
-PARTS = [Part('many', prop, enumerate=enum_many, quick=(1, 0), thorough=(4, 0)),
+def enum_huge(tier):
+    """a design with more than 2^15 scan flip-flops (positions in s_nodes beyond 32767) in one shuffled chain"""
+    for nst in ([] if tier == 'quick' else [33000]):          # 35 s per case (the library's own look-ups are quadratic in the chain length): thorough tier only
+        nl = dict(pi=3, st=[dict(t='D', k='DFF', d=('i0' if k == 0 else f's{k - 1}'), c='i1') for k in range(nst)], g=[], po=[f's{nst - 1}'], style='cells',
+                  w={'i0': 'D', 'i1': 'F', **{f's{k}': 'D' for k in range(nst - 1)}, f's{nst - 1}': 'D'}, ports=['i0', 'i1', 'i2', 'o0'], rev=False)
+        order = [(k * 7919) % nst for k in range(nst)]          # 7919 is prime and larger than neither size divides it: a permutation
+        x = 0x9e3779b9 + nst
+        pats = []
+        for i in range(2):
+            def chars(alpha, n):
+                nonlocal x
+                out = []
+                for _ in range(n):
+                    x = (x * 6364136223846793005 + 1442695040888963407) % (1 << 64)
+                    out.append(alpha[(x >> 40) % len(alpha)])
+                return ''.join(out)
+            pats.append(dict(style=['loc', 'sa'][i], loads=[chars('0011N', nst)], unloads=[chars('LLHHX', nst)], pi1=list(chars('01', 3)),
+                             pi2=list(chars('01', 3)), po=[chars('LHX', 1)], capP=True, launchP=True))
+        marks = [0] * (nst + 1)
+        for k in (1, nst // 3, nst // 2, nst - 2, nst):
+            marks[k] = 1
+        yield dict(nl=nl, ndata=1, chains=[dict(cells=order, marks=marks, si='i2', so='o0', dotted=False)], pats=pats, latch=False,
+                   pi_order=[1, 2, 0], po_order=[0], brk=nst * 3 + 1)
+
+
+PARTS = [Part('huge', prop, enumerate=enum_huge, quick=(1, 0), thorough=(2, 0)),
+         Part('many', prop, enumerate=enum_many, quick=(1, 0), thorough=(4, 0)),
          Part('patterns', prop, strategy=cases, quick=(8, 250), thorough=(16, 2500))]
